@@ -199,6 +199,10 @@ impl DBM {
             }
         }
 
+        #[cfg(feature = "verif")]
+        teos_common::verif::crash_point("tower::batch_remove_users:before_commit");
+        #[cfg(feature = "verif")]
+        let _after = VerifAfterCommit("tower::batch_remove_users:after_commit");
         match tx.commit() {
             Ok(_) => log::debug!("Users successfully deleted"),
             Err(e) => log::error!("Couldn't delete users. Error: {e:?}"),
@@ -445,6 +449,10 @@ impl DBM {
             };
         }
 
+        #[cfg(feature = "verif")]
+        teos_common::verif::crash_point("tower::batch_remove_appointments:before_commit");
+        #[cfg(feature = "verif")]
+        let _after = VerifAfterCommit("tower::batch_remove_appointments:after_commit");
         match tx.commit() {
             Ok(_) => log::debug!("Appointments successfully deleted"),
             Err(e) => log::error!("Couldn't delete appointments. Error: {e:?}"),
@@ -746,6 +754,17 @@ impl DBM {
             Ok(SecretKey::from_str(&sk).unwrap())
         })
         .ok()
+    }
+}
+
+/// Fires a crash point once the enclosing commit has returned (feature `verif` only).
+#[cfg(feature = "verif")]
+struct VerifAfterCommit(&'static str);
+
+#[cfg(feature = "verif")]
+impl Drop for VerifAfterCommit {
+    fn drop(&mut self) {
+        teos_common::verif::crash_point(self.0);
     }
 }
 
